@@ -55,7 +55,7 @@ func flatten(cmds []rawCmd) []byte {
 				b = append(b, p.Text...)
 				continue
 			}
-			n := int64(len(p.Lit))
+			n := uint64(len(p.Lit))
 			if p.Announce > 0 {
 				n = p.Announce
 			}
@@ -181,7 +181,7 @@ func runC06(r *R) {
 	if st.Choose(6) == 0 {
 		// last command: an APPEND announcing more than the 100 MiB limit as a NON-synchronising literal (no payload
 		// follows): whatever the capabilities, the backend must not be asked to store it
-		g.cmds = append(g.cmds, rawCmd{Tag: g.tag(), Name: "APPEND", Parts: cat("APPEND INBOX ", rawPart{IsLit: true, Announce: 100*1024*1024 + 1 + int64(st.Choose(3))})})
+		g.cmds = append(g.cmds, rawCmd{Tag: g.tag(), Name: "APPEND", Parts: cat("APPEND INBOX ", rawPart{IsLit: true, Announce: g.hugeSize()})})
 	}
 	var blob []byte
 	if mode == 1 {
@@ -248,6 +248,7 @@ type c06Out struct {
 	useMem        bool
 	healthy       *rawPeer
 	fromGenerator bool
+	peer          *rawPeer
 }
 
 func c06Exec(r *R, cmds []rawCmd, blob []byte, capsVariant int, useMem bool, kind int, off int64, netMode int, sched *simrt.Tape, cfg simrt.Config) *c06Out {
@@ -287,6 +288,7 @@ func c06Exec(r *R, cmds []rawCmd, blob []byte, capsVariant int, useMem bool, kin
 			out.healthy = healthy
 		}
 		peer := newRawPeer(r, "peer", cc)
+		out.peer = peer
 		done := make(chan struct{})
 		healthyDone := make(chan struct{})
 		stopHealthy := false
@@ -402,7 +404,11 @@ func c06Judge(r *R, out *c06Out, phase string) {
 	if len(hung) > 0 {
 		r.Violate("hang", strings.Join(uniq(hung), ","), "%s: harness tasks blocked at quiescence:\n%s", phase, describeAlive(res))
 	}
+	if out.peer != nil {
+		judgeInvites(r, out.peer.outcomes, phase)
+	}
 	if !out.useMem {
+		judgeIdleLeaks(r, out.b, phase)
 		for id := 1; id <= out.b.created; id++ {
 			if n := out.b.closed[id]; n != 1 {
 				r.Violate("session-close-count", fmt.Sprintf("closed %d times", n), "%s: backend session #%d was created but Close was called %d times (want exactly once) by the time the connection's goroutines were judged", phase, id, n)
@@ -410,7 +416,7 @@ func c06Judge(r *R, out *c06Out, phase string) {
 		}
 		for _, c := range out.b.calls {
 			if c.Method == "Append" {
-				if sz, _ := strconv.ParseInt(c.Args[1], 10, 64); sz > 100*1024*1024 {
+				if sz, _ := strconv.ParseInt(c.Args[1], 10, 64); sz > 100*1024*1024 || sz < 0 {
 					r.Violate("append-over-limit", "backend reached", "%s: the backend's Append was invoked for a %d-byte literal (limit 100 MiB); it read %d payload bytes", phase, sz, c.Bytes)
 				}
 				continue
